@@ -48,7 +48,7 @@ def Res.bind {α β : Type} (r : Res α) (f : α → Res β) : Res β :=
 /-! ### `\S+` -/
 
 /-- a code point the pattern `\S+` does not accept (generated from the code's own compiled pattern) -/
-def isWs (c : Nat) : Bool := BS.Gen.notTokenChars.contains c
+def isWs (c : Nat) : Bool := BS.Gen.c17NotTokenChars.contains c
 
 /-- `nonwhitespace_re.findall(s)`: leftmost, greedy, non-overlapping matches of `\S+`.
     `cur` = the match in progress. -/
@@ -97,7 +97,7 @@ def sortedKeys : List (Nat × List Nat) → Bool
   | a :: b :: rest => decide (a.1 < b.1) && sortedKeys (b :: rest)
 
 def lowerCp (c : Nat) : List Nat :=
-  match lookupSorted BS.Gen.lowerMap c with
+  match lookupSorted BS.Gen.c17LowerMap c with
   | some l => l
   | Option.none => [c]
 
@@ -277,12 +277,14 @@ structure BuilderCfg where
   cdata : Option CdataMap      -- builder.cdata_list_attributes
   dictCls : DictClass          -- builder.attribute_dict_class
   listCls : Nat                -- builder.attribute_value_list_class
+  isXml : Bool                 -- builder.is_xml (stored as tag.known_xml; decides the container class of copies)
 deriving Repr
 
 structure TagAttrs where
   cls : DictClass
   listCls : Nat                -- tag.attribute_value_list_class
   items : Items
+  isXml : Bool                 -- tag.known_xml (`builder.is_xml`, or the `is_xml` argument without a builder)
 deriving DecidableEq, Repr
 
 def truthyMap : Option CdataMap → Bool
@@ -301,16 +303,17 @@ def tagInit (maxDigits : Nat) (lower : PStr → PStr) (b : Option BuilderCfg) (i
     | Option.none => if isXml then DictClass.xml else DictClass.html
     | some b => b.dictCls
   let listCls := match b with | Option.none => 1 | some b => b.listCls
+  let x := match b with | Option.none => isXml | some b => b.isXml      -- element.py:1693-1696
   match attrs with
-  | Option.none => .ok ⟨cls, listCls, []⟩
+  | Option.none => .ok ⟨cls, listCls, [], x⟩
   | some (acls, d) =>
     match b with
     | some b =>
       if truthyMap b.cdata then
         -- the very dictionary passed in is kept (and modified in place)
-        (replaceCdataList maxDigits b.cdata lower b.listCls acls name d).bind fun d' => .ok ⟨acls, listCls, d'⟩
-      else (copyInto maxDigits cls d []).bind fun d' => .ok ⟨cls, listCls, d'⟩
-    | Option.none => (copyInto maxDigits cls d []).bind fun d' => .ok ⟨cls, listCls, d'⟩
+        (replaceCdataList maxDigits b.cdata lower b.listCls acls name d).bind fun d' => .ok ⟨acls, listCls, d', x⟩
+      else (copyInto maxDigits cls d []).bind fun d' => .ok ⟨cls, listCls, d', x⟩
+    | Option.none => (copyInto maxDigits cls d []).bind fun d' => .ok ⟨cls, listCls, d', x⟩
 
 /-- `tag[key] = value` (element.py:2223-2226) -/
 def tagSet (maxDigits : Nat) (t : TagAttrs) (k : Key) (v : PyVal) : Res TagAttrs :=
@@ -380,5 +383,196 @@ def renderVal (maxDigits : Nat) : PyVal → Rendered
   | .int i => match pyStrInt maxDigits i with | .ok s => .text s | .valueError => .valueError
   | .float t _ => .text t
   | .other id _ => .opaque id
+
+/-! ### histories: several tags made under one builder, lists changed in place
+
+In Python the value of a multi-valued attribute is a *mutable* list object. The documented meaning is that every
+attribute owns its list: the builder creates a fresh `attribute_value_list_class(...)` for each attribute it splits
+(builder/__init__.py:429-431) and `Tag.__init__` copies lists (`v.__class__(v)`, element.py:1686-1688). The model states
+this as a store without sharing: the state is the list of tags made so far, each with its own `Items`. -/
+
+/-- in-place operations on a list value (`tag["class"].append("x")`, …) -/
+inductive ListOp where
+  | append (t : PStr)
+  | remove (t : PStr)        -- first occurrence (absent: the harness does not generate it; Python raises ValueError)
+  | clear
+  | sort
+  | iadd (l : List PStr)     -- `+=` / extend
+  | reverse
+  | pop                      -- last element
+  | insert0 (t : PStr)
+deriving DecidableEq, Repr
+
+/-- `a <= b` for Python str comparison (by code point) -/
+def lexLe : PStr → PStr → Bool
+  | [], _ => true
+  | _ :: _, [] => false
+  | a :: as, b :: bs => if a < b then true else if b < a then false else lexLe as bs
+
+def insertSorted (x : PStr) : List PStr → List PStr
+  | [] => [x]
+  | y :: ys => if lexLe x y then x :: y :: ys else y :: insertSorted x ys
+
+def sortStrs : List PStr → List PStr
+  | [] => []
+  | x :: xs => insertSorted x (sortStrs xs)
+
+def applyListOp : ListOp → List PStr → List PStr
+  | .append t, l => l ++ [t]
+  | .remove t, l => l.erase t
+  | .clear, _ => []
+  | .sort, l => sortStrs l
+  | .iadd m, l => l ++ m
+  | .reverse, l => l.reverse
+  | .pop, l => l.dropLast
+  | .insert0 t, l => t :: l
+
+/-- the change reaches the dictionary without going through `__setitem__` -/
+def mutateValue (op : ListOp) : PyVal → PyVal
+  | .list c l => .list c (applyListOp op l)
+  | v => v
+
+def mutateTag (t : TagAttrs) (k : PStr) (op : ListOp) : TagAttrs :=
+  match dictGet t.items k with
+  | some v => { t with items := dictSet t.items k (mutateValue op v) }
+  | Option.none => t
+
+def modifyAt {α : Type} : List α → Nat → (α → α) → List α
+  | [], _, _ => []
+  | a :: l, 0, f => f a :: l
+  | a :: l, i + 1, f => a :: modifyAt l i f
+
+inductive Step where
+  | parse (name : PStr) (attrs : List (PStr × Option PStr))   -- a start tag of a document fed to the builder
+  | newTag (name : PStr) (items : Items)                       -- soup.new_tag(name, attrs=items)
+  | copy (i : Nat)                                             -- copy.copy(tag i)
+  | mutate (i : Nat) (k : PStr) (op : ListOp)                  -- tag_i[k].<op>(…)
+  | set (i : Nat) (k : Key) (v : PyVal)                        -- tag_i[k] = v
+  | del (i : Nat) (k : PStr)                                   -- del tag_i[k]
+
+/-- `copy.copy(tag)` = `Tag.copy_self` (element.py:1800-1836). First a builder-less `Tag(None, None, name, …,
+    self.attrs, is_xml=self._is_xml)` is made — its attribute pass (an HTML/XML container) only matters if it raises —
+    then `clone.attrs = self.attrs.__class__()` is filled with the original's values (lists in new lists), assigned
+    through that class's own `__setitem__`. -/
+def copyTag (maxDigits : Nat) (lower : PStr → PStr) (name : PStr) (t : TagAttrs) : Res TagAttrs :=
+  (tagInit maxDigits lower Option.none t.isXml name (some (t.cls, t.items))).bind fun t0 =>
+    (copyInto maxDigits t.cls t.items []).bind fun d => .ok { t0 with cls := t.cls, items := d }
+
+/-- the tags made so far (name, attributes), oldest first -/
+abbrev Hist := List (PStr × TagAttrs)
+
+def histStep (maxDigits : Nat) (lower : PStr → PStr) (b : BuilderCfg) (st : Hist) : Step → Res Hist
+  | .parse name attrs =>
+    (parseStartTag maxDigits lower b .replace name attrs).bind fun t => .ok (st ++ [(name, t)])
+  | .newTag name items =>
+    (tagInit maxDigits lower (some b) false name (some (b.dictCls, items))).bind fun t => .ok (st ++ [(name, t)])
+  | .copy i =>
+    match st[i]? with
+    | some (n, t) => (copyTag maxDigits lower n t).bind fun t' => .ok (st ++ [(n, t')])
+    | Option.none => .ok st
+  | .mutate i k op => .ok (modifyAt st i (fun p => (p.1, mutateTag p.2 k op)))
+  | .set i k v =>
+    match st[i]? with
+    | some (_, t) => (tagSet maxDigits t k v).bind fun t' => .ok (modifyAt st i (fun p => (p.1, t')))
+    | Option.none => .ok st
+  | .del i k => .ok (modifyAt st i (fun p => (p.1, { p.2 with items := dictDel p.2.items k })))
+
+def runHist (maxDigits : Nat) (lower : PStr → PStr) (b : BuilderCfg) : Hist → List Step → Res Hist
+  | st, [] => .ok st
+  | st, s :: rest => (histStep maxDigits lower b st s).bind fun st' => runHist maxDigits lower b st' rest
+
+/-- the value of attribute `k` of tag `j` -/
+def attrAt (st : Hist) (j : Nat) (k : PStr) : Option PyVal :=
+  match st[j]? with
+  | some p => dictGet p.2.items k
+  | Option.none => Option.none
+
+/-! ### reading and deleting attributes (element.py:2190-2231) -/
+
+/-- `tag.get(key, default)` (`default` is `None` unless given) -/
+def tagGet (t : TagAttrs) (k : PStr) (dflt : PyVal) : PyVal :=
+  match dictGet t.items k with
+  | some v => v
+  | Option.none => dflt
+
+/-- `tag[key]`: the value, or `KeyError` -/
+def tagGetItem (t : TagAttrs) (k : PStr) : Option PyVal := dictGet t.items k
+
+/-- `tag.has_attr(key)` -/
+def hasAttr (t : TagAttrs) (k : PStr) : Bool := dictHas t.items k
+
+/-- `del tag[key]` = `self.attrs.pop(key, None)`: no error when absent -/
+def tagDel (t : TagAttrs) (k : PStr) : TagAttrs := { t with items := dictDel t.items k }
+
+/-- what `get_attribute_list` returns: a list of strings, or (for a value that is neither `None`, a list nor a string)
+    a one-element list holding that value -/
+inductive AttrList where
+  | strs (cls : Nat) (l : List PStr)
+  | single (cls : Nat) (v : PyVal)
+deriving DecidableEq, Repr
+
+/-- `tag.get_attribute_list(key, default)` (element.py:2203-2224): `None` → an empty list of the tag's list class; a
+    list → that list itself; anything else → a one-element list of the tag's list class -/
+def getAttributeList (t : TagAttrs) (k : PStr) (dflt : PyVal) : AttrList :=
+  match tagGet t k dflt with
+  | .none => .strs t.listCls []
+  | .list c l => .strs c l
+  | .str s => .strs t.listCls [s]
+  | v => .single t.listCls v
+
+/-! ### output: the attribute part of `Tag._format_tag` (element.py:2578-2601), `Formatter.attributes`
+    (formatter.py:170-190) and `EntitySubstitution.quoted_attribute_value` (dammit.py:316-353) -/
+
+def insertItem (p : PStr × PyVal) : Items → Items
+  | [] => [p]
+  | q :: qs => if lexLe p.1 q.1 then p :: q :: qs else q :: insertItem p qs
+
+/-- `sorted(...)` of `(key, value)` pairs with distinct keys: by key, by code point -/
+def sortItems : Items → Items
+  | [] => []
+  | p :: ps => insertItem p (sortItems ps)
+
+/-- `Formatter.attributes(tag)`: with `empty_attributes_are_booleans` a value equal to `""` becomes `None` -/
+def fmtAttributes (emptyBool : Bool) (items : Items) : Items :=
+  sortItems (items.map fun p => (p.1, if emptyBool && p.2 == PyVal.str [] then PyVal.none else p.2))
+
+def quotEntity : PStr := [38, 113, 117, 111, 116, 59]   -- "&quot;"
+
+/-- `quoted_attribute_value`: double quotes, unless the value has a `"` and no `'` (then single quotes); with both
+    kinds the `"` are written `&quot;` -/
+def quotedAttributeValue (v : PStr) : PStr :=
+  if v.contains 34 then
+    if v.contains 39 then 34 :: v.flatMap (fun c => if c == 34 then quotEntity else [c]) ++ [34]
+    else 39 :: v ++ [39]
+  else 34 :: v ++ [34]
+
+/-- the formatter as far as attributes are concerned; `subst` is `formatter.attribute_value` (entity substitution, the
+    subject of another property — a parameter here), `otherStr` is `str()` of objects the model knows by number only -/
+structure FmtCfg where
+  emptyBool : Bool
+  subst : PStr → PStr
+  otherStr : Nat → PStr
+
+/-- one `decoded` entry of `_format_tag` -/
+def formatAttr (maxDigits : Nat) (f : FmtCfg) (p : PStr × PyVal) : Res PStr :=
+  match renderVal maxDigits p.2 with
+  | .bare => .ok p.1
+  | .text s => .ok (p.1 ++ 61 :: quotedAttributeValue (f.subst s))
+  | .opaque i => .ok (p.1 ++ 61 :: quotedAttributeValue (f.subst (f.otherStr i)))
+  | .valueError => .valueError
+
+def formatAttrs (maxDigits : Nat) (f : FmtCfg) : Items → Res (List PStr)
+  | [] => .ok []
+  | p :: ps => (formatAttr maxDigits f p).bind fun a => (formatAttrs maxDigits f ps).bind fun as => .ok (a :: as)
+
+/-- `attribute_string`: empty without attributes, else a blank and the entries joined by single blanks -/
+def attributeString (maxDigits : Nat) (f : FmtCfg) (items : Items) : Res PStr :=
+  (formatAttrs maxDigits f (fmtAttributes f.emptyBool items)).bind fun l =>
+    .ok (if l.isEmpty then [] else 32 :: joinSp l)
+
+/-! ### ASCII lower-casing (what `str.lower` does on ASCII names; proved equal to `pyLower` there) -/
+
+def asciiLowerCp (c : Nat) : Nat := if 65 ≤ c ∧ c ≤ 90 then c + 32 else c
+def asciiLower (s : PStr) : PStr := s.map asciiLowerCp
 
 end BS.Attrs
